@@ -296,7 +296,7 @@ func (x *tr) loopEnter(s ast.Stmt) string {
 	}
 	sort.Strings(l.carried)
 	for _, n := range l.carried {
-		p := x.param(n+"_in", l.ctypes[n])
+		p := x.param(x.inName(n), l.ctypes[n]) // ext_chain.go: <n>_in unless the target asks for canonical names
 		pre += "let " + cname(n) + " := " + p.coq + " in\n  "
 	}
 	if cond != nil {
